@@ -12,7 +12,8 @@ CONSTANTS MaxBad      \* longest prefix of bad plugins ahead of a good one
 VARIABLES sc, emitted
 
 Names  == {"ok", "empty"}
-Idxs   == {"ok", "empty", "one", "three", "alpha", "mixed", "sign", "space", "unicode", "fullwidth"}
+Idxs   == {"ok", "empty", "one", "three", "alpha", "mixed", "sign", "space", "unicode", "fullwidth",
+           "arabic1", "persian1", "nko1", "latin1", "plus", "dot", "hex", "exp", "newline"}
 Masks  == {"zero", "subset", "all", "foreign", "high", "sign"}
 Stalls == {"none", "noregister", "noconfigure"}
 
